@@ -18,6 +18,9 @@ pub enum Problem {
     /// (d) generic non-linear non-autonomous coupling (no closed form):
     /// f_i = al_i sin(om_i t + y_{i+1}) - be_i y_i + ga_i y_{i+1} cos(nu_i t) / (1 + y_i^2)
     Generic { al: Vec<f64>, om: Vec<f64>, be: Vec<f64>, ga: Vec<f64>, nu: Vec<f64> },
+    /// (f) decoupled quasi-steady relaxation onto a slowly moving branch (no closed form), for the method checks only:
+    /// f_i = -lam_i (y_i^2 - (c0_i + a_i t)^2), started on the branch y = c0 + a t0; strongly curved in y
+    Quasi { lam: Vec<f64>, c0: Vec<f64>, a: Vec<f64> },
 }
 
 /// Pre-computed form used during a run
@@ -43,6 +46,7 @@ impl Problem {
             Problem::Forced { kind, .. } => kind.len(),
             Problem::Sep { kind, .. } => kind.len(),
             Problem::Generic { al, .. } => al.len(),
+            Problem::Quasi { lam, .. } => lam.len(),
         }
     }
     pub fn class(&self) -> &'static str {
@@ -51,10 +55,11 @@ impl Problem {
             Problem::Forced { .. } => "forced",
             Problem::Sep { .. } => "separable",
             Problem::Generic { .. } => "generic",
+            Problem::Quasi { .. } => "quasi-steady",
         }
     }
     pub fn has_closed_form(&self) -> bool {
-        !matches!(self, Problem::Generic { .. })
+        !matches!(self, Problem::Generic { .. } | Problem::Quasi { .. })
     }
     pub fn compile(&self) -> Option<Compiled> {
         let dim = self.dim();
@@ -102,6 +107,11 @@ impl Problem {
                 let fr = om.iter().chain(nu.iter()).cloned().fold(0.0, f64::max);
                 Some(Compiled { p: self.clone(), dim, a: None, m: None, minv: None, lipschitz: l.max(0.05), growth: l, cond: 1.0, rate: l.max(fr).max(0.05) })
             }
+            Problem::Quasi { lam, c0, a } => {
+                // |df/dy| = 2 lam |y| with y near the branch |c0 + a t|, |t| <= 40
+                let l = (0..dim).map(|i| 2.0 * lam[i].abs() * 1.5 * (c0[i].abs() + 40.0 * a[i].abs())).fold(0.0, f64::max);
+                Some(Compiled { p: self.clone(), dim, a: None, m: None, minv: None, lipschitz: l.max(0.05), growth: 0.0, cond: 1.0, rate: l.max(0.05) })
+            }
         }
     }
 }
@@ -135,6 +145,12 @@ impl Compiled {
                 for i in 0..d {
                     let yn = y[(i + 1) % d];
                     out[i] = al[i] * (om[i] * t + yn).sin() - be[i] * y[i] + ga[i] * yn * (nu[i] * t).cos() / (1.0 + y[i] * y[i]);
+                }
+            }
+            Problem::Quasi { lam, c0, a } => {
+                for i in 0..d {
+                    let c = c0[i] + a[i] * t;
+                    out[i] = -lam[i] * (y[i] * y[i] - c * c);
                 }
             }
         }
@@ -209,7 +225,7 @@ impl Compiled {
                 }
                 Some(y)
             }
-            Problem::Generic { .. } => None,
+            Problem::Generic { .. } | Problem::Quasi { .. } => None,
         }
     }
 
@@ -381,6 +397,18 @@ pub fn problem_generic_strong() -> BoxedStrategy<(Problem, Vec<f64>)> {
         .prop_map(|((p, y0), f)| match p {
             Problem::Generic { al, om, be, ga, nu } => (Problem::Generic { al: al.into_iter().map(|a| a * f).collect(), om, be, ga, nu }, y0),
             other => (other, y0),
+        })
+        .boxed()
+}
+
+/// quasi-steady relaxations in units of the step and the tolerance (the caller scales them): lam dt^2 in [0.5,8],
+/// lam c0 dt in [0.2,1.3] (inside the start-up's stability region), branch motion per step in [0.2,4] tolerances
+pub fn problem_quasi_units() -> BoxedStrategy<(Problem, Vec<f64>)> {
+    (1usize..=2)
+        .prop_flat_map(|d| (vecn(d, gen::fl(0.5, 8.0)), vecn(d, gen::fl(0.2, 1.3)), vecn(d, (gen::fl(0.2, 4.0), any::<bool>()).prop_map(|(m, neg)| if neg { -m } else { m }).boxed())))
+        .prop_map(|(lam, c0, a)| {
+            let d = lam.len();
+            (Problem::Quasi { lam, c0, a }, vec![0.0; d])
         })
         .boxed()
 }
